@@ -396,7 +396,7 @@ fn run_worker(tier: &str, shard: usize, nshards: usize, skip: i64, tokfile: &str
 
 pub fn run(tier: &str, only: Option<&Value>) -> i32 {
     let mut rep = Report::new("C12", tier);
-    rep.rule = "E1 robustness menus — every numeric position x the boundary integer alphabet (singly and all pairs within a template; table-sized positions capped at 65536), every identifier position x an identifier alphabet incl. raw identifiers, generics, non-ASCII and keywords, every known attribute name x 10 shapes x 12 positions, a list of structural oddities (bases of every kind, odd enum bases, duplicate names, reserved generated names, broken backend text), the dependency graphs of C10, public-API call sequences (<= 3 add_module calls over 3 modules x 4 path kinds, then build) — and E3: every token sequence the parser accepts (lengths as in C18) continued into build; all at pointer widths 4 and 8 in worker subprocesses under a 4 GiB address-space limit and a 10 s no-progress watchdog; plus every rejected token text of length <= 3 through add_file, whose error must name path:line:column inside the file. distinct = distinct case texts".into();
+    rep.rule = "E1 robustness menus — every numeric position x the boundary integer alphabet (singly and all pairs within a template; table-sized positions capped at 65536), every identifier position x an identifier alphabet incl. raw identifiers, generics, non-ASCII and keywords, every known attribute name x 10 shapes x 12 positions, a list of structural oddities (bases of every kind, odd enum bases, duplicate names, reserved generated names, broken backend text), the dependency graphs of C10, public-API call sequences (<= 3 add_module calls over 3 modules x 4 path kinds, then build) — and E3: every token sequence the parser accepts (lengths as in C18) continued into build; all at pointer widths 4 and 8 in worker subprocesses under a 4 GiB address-space limit and a 10 s no-progress watchdog; plus every rejected token text of length <= 3 (and a fifth of them again behind multi-byte characters on the same line, and eight hand-written errors after non-ASCII identifiers / strings) through add_file, whose error must name path:line:column inside the file. distinct = distinct case texts".into();
     rep.assumptions = vec![
         "a worker that dies or stalls is attributed to the case recorded in its status file and re-run alone before it is reported".into(),
         "asymptotic resource use is not measured: fixed generous caps on inputs whose requested tables are small".into(),
@@ -533,6 +533,29 @@ pub fn run(tier: &str, only: Option<&Value>) -> i32 {
     rep.transitions += all.len() as u64 * 2;
     rep.traces += all.len() as u64 * 2;
     rep.evaluations += all.len() as u64 * 2;
+    // the same rejected texts behind multi-byte characters on the same line (columns count characters,
+    // not bytes), and hand-written errors after non-ASCII identifiers, strings and doc text
+    let plain = rejected_short.len();
+    for i in (0..plain).step_by(5) {
+        let t = rejected_short[i].clone();
+        rejected_short.push(format!("/* 名名é */ {t}"));
+        if i % 3 == 0 {
+            rejected_short.push(format!("/// dök 名\n/* ü */ {t} /* 名 */"));
+        }
+    }
+    for t in [
+        "type T { größe: u32 höhe: u32 }",
+        "type T { a: 名名名 b: u32 }",
+        "/// dök\ntype é { x: u32, ] }",
+        "enum Ä: u32 { Ö = , }",
+        "backend rust prologue \"ünï\" x;",
+        "#[tag(\"名前\") size] type T {}",
+        "use é::ü::;",
+        "extern 名: u32",
+    ] {
+        rejected_short.push(t.to_string());
+    }
+    rejected_short.retain(|t| std::panic::catch_unwind(|| pyxis::parser::parse_str(t).is_err()).unwrap_or(true));
     // parse errors through add_file must name path:line:column inside the file
     let dir = util::scratch_root().join("c12-files");
     let _ = std::fs::create_dir_all(&dir);
